@@ -1,7 +1,239 @@
 import TbbVerif.Core.Proto
+import TbbVerif.Model.C12
 
-open TbbVerif
+open TbbVerif TbbVerif.C12
 
-def drivers : List (String × Proto.Driver) := []
+namespace C12Drv
+
+def showEv (e : Ev) : String := s!"{e.kind} {e.var} {e.a} {e.b} {Proto.showBool e.ok}"
+
+def splitOp (w : String) : List String := w.splitOn ":"
+
+/-! ### pure functions: `rev x`, `reg h`, `dum b`, `par b` -/
+def pureStep (ws : List String) : String :=
+  match ws with
+  | [f, x] =>
+    match x.toNat? with
+    | none => "bad-op"
+    | some n =>
+      if n ≥ 2 ^ 64 then "bad-op" else
+      match f with
+      | "rev" => toString (rev 64 n)
+      | "reg" => toString (regularKey n)
+      | "dum" => toString (dummyKey n)
+      | "par" => match getParent n with | some p => toString p | none => "reject"
+      | _ => "bad-op"
+  | ["chk", x, k] =>
+    -- the facts proved in `split_order_bucket_entry` hold for every input: the model's answer is always `ok`
+    match x.toNat?, k.toNat? with
+    | some n, some k => if k > 63 ∨ n ≥ 2 ^ 64 then "bad-op" else "ok"
+    | _, _ => "bad-op"
+  | ["revn", w, x] =>
+    match w.toNat?, x.toNat? with
+    | some w, some n => if w = 0 ∨ w > 64 ∨ n ≥ 2 ^ 64 then "bad-op" else toString (rev w n)
+    | _, _ => "bad-op"
+  | _ => "bad-op"
+
+/-! ### split-ordered hash table replay -/
+namespace SO
+open SplitOrder
+
+structure D where
+  cfg : Cfg := {}
+  st  : St := {}
+  tail : List Nat := []      -- threads inside the unmodelled read-only tail of count()/equal_range()
+
+def parseOp (w : String) : Option Op :=
+  match splitOp w with
+  | ["ins", h, uk] => do some (.ins (← h.toNat?) (← uk.toNat?))
+  | ["find", h, uk] => do some (.find (← h.toNat?) (← uk.toNat?))
+  | ["touch", h] => do some (.touch (← h.toNat?))
+  | ["trav"] => some .trav
+  | _ => none
+
+def uks (s : St) (ns : List Nat) : List Nat :=
+  (ns.filter (fun n => (s.L.key n).ok % 2 = 1)).map (fun n => (s.L.key n).uk)
+
+def showRes (s : St) : Res → String
+  | .ins _ ok _ => s!"ins {Proto.showBool ok}"
+  | .find _ _ r => s!"find {Proto.showBool r.isSome}"
+  | .trav seen _ => "trav " ++ Proto.showNats (uks s seen)
+  | .touched _ => "touch"
+  | .misuse => "misuse"
+  | .broken w => s!"broken {w}"
+
+/-- step thread `t` until it has performed an access (at most `fuel` silent steps first) -/
+def stepEv (cfg : Cfg) (s : St) (t : Nat) : Nat → St × Option Ev × Option Res
+  | 0 => (s, none, none)
+  | fuel + 1 =>
+    match s.ths[t]? with
+    | none => (s, none, none)
+    | some th =>
+      let o := thStep cfg s t th
+      let s' := applyOut s t o
+      match o.ev with
+      | some e => (s', some e, o.res)
+      | none =>
+        if th.pc = .idle ∧ th.ops = [] then (s', none, o.res)
+        else match o.res with
+          | some r => (s', none, some r)
+          | none => stepEv cfg s' t fuel
+
+/-- run thread `t` to the end of its program -/
+def runAll (cfg : Cfg) (s : St) (t : Nat) : Nat → St
+  | 0 => s
+  | fuel + 1 =>
+    match s.ths[t]? with
+    | none => s
+    | some th => if th.pc = .idle ∧ th.ops = [] then s else runAll cfg (step cfg s t) t fuel
+
+def dstep (d : D) (ws : List String) : D × String :=
+  match ws with
+  | ["cfg", multi, bc, num, den] =>
+    match bc.toNat?, num.toNat?, den.toNat? with
+    | some bc, some num, some den =>
+      ({ cfg := { multi := multi == "1", mlfNum := num, mlfDen := den }, st := { bc := bc } }, "ok")
+    | _, _, _ => (d, "bad-op")
+  | "prog" :: ops =>
+    match ops.mapM parseOp with
+    | some ops => ({ d with st := { d.st with ths := d.st.ths ++ [{ ops := ops }] } }, "ok")
+    | none => (d, "bad-op")
+  | "pre" :: ops =>
+    match ops.mapM parseOp with
+    | some ops =>
+      let n := d.st.ths.length
+      let s1 := { d.st with ths := d.st.ths ++ [{ ops := ops }] }
+      let s2 := runAll d.cfg s1 n (ops.length * 4000 + 10)
+      ({ d with st := { s2 with ths := s2.ths.take n, log := [] } }, "ok")
+    | none => (d, "bad-op")
+  | ["s", t] =>
+    match t.toNat? with
+    | some t =>
+      if d.tail.contains t then (d, "tail") else
+      let (s', ev, res) := stepEv d.cfg d.st t 4
+      let e := match ev with | some e => showEv e | none => "none"
+      -- the link of a dummy node is logged by the model like an insert; it is not the result of an operation
+      let res := match res with | some (.ins k _ _) => if k.ok % 2 = 0 then none else res | r => r
+      let r := match res with | some r => " | " ++ showRes s' r | none => ""
+      let tail := match res with | some (.touched _) => t :: d.tail | _ => d.tail
+      ({ d with st := s', tail := tail }, e ++ r)
+    | none => (d, "bad-op")
+  | ["fin", t] =>
+    match t.toNat? with
+    | some t => ({ d with tail := d.tail.filter (· ≠ t) }, "ok")
+    | none => (d, "bad-op")
+  | ["state"] =>
+    let s := d.st
+    (d, s!"chain {Proto.showNats (uks s s.L.chain)} | bc {s.bc} | size {s.size} | nodes {s.L.chain.length}")
+  | ["nodes"] =>
+    let s := d.st
+    (d, " ".intercalate ((List.range s.L.fresh).map (fun n =>
+      s!"{n}:{(s.L.key n).ok}:{(s.L.key n).uk}:{Proto.showBool (s.L.chain.contains n)}")))
+  | _ => (d, "bad-op")
+
+def driver : Proto.Driver := { σ := D, init := {}, step := dstep }
+end SO
+
+/-! ### skip list replay -/
+namespace SK
+open SkipList
+
+structure D where
+  cfg : Cfg := {}
+  st  : St := {}
+
+def parseOp (w : String) : Option Op :=
+  match splitOp w with
+  | ["ins", k, h] => do some (.ins (← k.toNat?) (← h.toNat?))
+  | ["find", k] => do some (.find (← k.toNat?))
+  | ["trav"] => some .trav
+  | _ => none
+
+def keysOf (s : St) (ns : List Nat) : List Nat := (ns.filter (· ≠ 0)).map (fun n => (s.core.key n).ok - 1)
+
+def showRes (s : St) : Res → String
+  | .ins _ ok _ => s!"ins {Proto.showBool ok}"
+  | .find _ _ r => s!"find {Proto.showBool r.isSome}"
+  | .trav seen _ => "trav " ++ Proto.showNats (keysOf s seen)
+  | .misuse => "misuse"
+
+def stepEv (cfg : Cfg) (s : St) (t : Nat) : Nat → St × Option Ev × Option Res
+  | 0 => (s, none, none)
+  | fuel + 1 =>
+    match s.ths[t]? with
+    | none => (s, none, none)
+    | some th =>
+      let o := thStep cfg s t th
+      let s' : St := { o.st with ths := s.ths.set t o.th, log := addLog s.log t o.res }
+      match o.ev with
+      | some e => (s', some e, o.res)
+      | none =>
+        if th.pc = .idle ∧ th.ops = [] then (s', none, o.res)
+        else match o.res with
+          | some r => (s', none, some r)
+          | none => stepEv cfg s' t fuel
+
+def runAll (cfg : Cfg) (s : St) (t : Nat) : Nat → St
+  | 0 => s
+  | fuel + 1 =>
+    match s.ths[t]? with
+    | none => s
+    | some th => if th.pc = .idle ∧ th.ops = [] then s else runAll cfg (step cfg s t) t fuel
+
+/-- executable check of the level structure: every level is sorted by (key, position on level 0) and is a
+sub-sequence of the level below -/
+def isSubseq : List Nat → List Nat → Bool
+  | [], _ => true
+  | _ :: _, [] => false
+  | x :: xs, y :: ys => if x = y then isSubseq xs ys else isSubseq (x :: xs) ys
+
+def levelsOk (cfg : Cfg) (s : St) : Bool :=
+  (List.range (cfg.maxLevel - 1)).all (fun l => isSubseq (s.core.chain (l + 1)) (s.core.chain l))
+
+def dstep (d : D) (ws : List String) : D × String :=
+  match ws with
+  | ["cfg", multi, maxLevel] =>
+    match maxLevel.toNat? with
+    | some ml => ({ cfg := { multi := multi == "1", maxLevel := ml }, st := {} }, "ok")
+    | none => (d, "bad-op")
+  | "prog" :: ops =>
+    match ops.mapM parseOp with
+    | some ops => ({ d with st := { d.st with ths := d.st.ths ++ [{ ops := ops }] } }, "ok")
+    | none => (d, "bad-op")
+  | "pre" :: ops =>
+    match ops.mapM parseOp with
+    | some ops =>
+      let n := d.st.ths.length
+      let s1 := { d.st with ths := d.st.ths ++ [{ ops := ops }] }
+      let s2 := runAll d.cfg s1 n (ops.length * 4000 + 10)
+      ({ d with st := { s2 with ths := s2.ths.take n, log := [] } }, "ok")
+    | none => (d, "bad-op")
+  | ["s", t] =>
+    match t.toNat? with
+    | some t =>
+      let (s', ev, res) := stepEv d.cfg d.st t 4
+      let e := match ev with | some e => showEv e | none => "none"
+      let r := match res with | some r => " | " ++ showRes s' r | none => ""
+      ({ d with st := s' }, e ++ r)
+    | none => (d, "bad-op")
+  | ["state"] =>
+    let s := d.st
+    (d, s!"chain {Proto.showNats (keysOf s (s.core.chain 0))} | maxh {s.maxh} | size {s.size} | levels {Proto.showBool (levelsOk d.cfg s)}")
+  | ["nodes"] =>
+    let s := d.st
+    (d, " ".intercalate ((List.range s.core.fresh).map (fun n =>
+      s!"{n}:{(s.core.key n).ok}:{s.core.height n}:{Proto.showBool ((s.core.chain 0).contains n)}")))
+  | _ => (d, "bad-op")
+
+def driver : Proto.Driver := { σ := D, init := {}, step := dstep }
+end SK
+
+end C12Drv
+
+def drivers : List (String × Proto.Driver) := [
+  ("c12pure", Proto.pureDriver C12Drv.pureStep),
+  ("c12so", C12Drv.SO.driver),
+  ("c12sk", C12Drv.SK.driver)
+]
 
 def main (args : List String) : IO UInt32 := Proto.mainOf drivers args
